@@ -145,3 +145,6 @@ def run(ctx):
     import dmlrules
     dmlrules.root_writeback(ctx, "D6.ROOT-WRITEBACK", ["database::toast::<impl database::database::Database>::toast_value",
                                                      "database::dml::insert::<impl database::database::Database>::execute_insert_internal"])
+    # D7 (C42 W1 restricted to the TOAST writer): WAL on and WAL off write the same chunks and the same root/hint bookkeeping
+    from props import c42
+    c42.arm_agree(ctx, "D7.TOAST-ARMS-AGREE", lambda f: f.id.startswith("database::toast::"), 1)
